@@ -74,6 +74,9 @@ func runSched(property string, u fw.Unit, scenarios []schedScenario) fw.Result {
 		return fw.Result{Err: fmt.Sprintf("scenario %d out of range", sp.Scn)}
 	}
 	sc := scenarios[sp.Scn]
+	if b := os.Getenv("VERIF_BOUND"); b != "" {
+		fmt.Sscan(b, &sp.Bound) // development override of the deviation bound
+	}
 	budget := sp.Budget
 	if budget == 0 {
 		budget = 1500
